@@ -5,6 +5,8 @@ package ev
 
 import (
 	"bufio"
+	"bytes"
+	"os/exec"
 	"crypto/sha1"
 	"encoding/hex"
 	"encoding/json"
@@ -110,7 +112,14 @@ func (r *Run) SetBudget(quick, thorough time.Duration) {
 		}
 	}
 	r.deadline = r.start.Add(d)
+	if s := os.Getenv("VERIF_DEADLINE_UNIX"); s != "" {
+		if u, err := strconv.ParseInt(s, 10, 64); err == nil && u > 0 {
+			r.deadline = time.Unix(u, 0)
+		}
+	}
 }
+
+var execCommand = exec.Command
 
 // Expired reports whether the budget is used up, and records the cap.
 func (r *Run) Expired(what string) bool {
@@ -218,8 +227,8 @@ func (r *Run) Set(k string, v interface{}) {
 // Add adds to an integer extra coverage key.
 func (r *Run) Add(k string, n int64) {
 	r.mu.Lock()
-	cur, _ := r.Extra[k].(int64)
-	r.Extra[k] = cur + n
+	cur, _ := r.Extra[k].(float64)
+	r.Extra[k] = cur + float64(n)
 	r.mu.Unlock()
 }
 
@@ -440,4 +449,182 @@ func Short(s string, n int) string {
 		return s
 	}
 	return s[:n] + fmt.Sprintf("...(%d bytes)", len(s))
+}
+
+// ---------------------------------------------------------------------------
+// Worker subprocesses.  Checks whose code under test has process-global state
+// (hooks, enforcement level, signal handlers) shard their work list over
+// worker processes: the parent re-executes itself with VERIF_WORKER=k/n, each
+// worker handles the items with index%n==k and dumps its Run state as JSON on
+// stdout; the parent merges the dumps.
+
+type dump struct {
+	Evals       int64                  `json:"evals"`
+	Distinct    []string               `json:"distinct"`
+	Outcomes    map[string]int64       `json:"outcomes"`
+	Findings    []Finding              `json:"findings"`
+	FindingSigs map[string]int         `json:"finding_sigs"`
+	KnownSeen   map[string]string      `json:"known_seen"`
+	Samples     []interface{}          `json:"samples"`
+	Extra       map[string]interface{} `json:"extra"`
+	Caps        []string               `json:"caps"`
+	Incon       []string               `json:"incon"`
+	Assumptions []string               `json:"assumptions"`
+	Exhaustive  bool                   `json:"exhaustive"`
+}
+
+// WorkerIndex returns (k, n, true) inside a worker process.
+func WorkerIndex() (int, int, bool) {
+	s := os.Getenv("VERIF_WORKER")
+	if s == "" {
+		return 0, 1, false
+	}
+	var k, n int
+	if _, err := fmt.Sscanf(s, "%d/%d", &k, &n); err != nil || n <= 0 {
+		return 0, 1, false
+	}
+	return k, n, true
+}
+
+// Mine reports whether work item i belongs to this process.
+func (r *Run) Mine(i int) bool {
+	k, n, ok := WorkerIndex()
+	if !ok {
+		return true
+	}
+	return i%n == k
+}
+
+// IsWorker reports whether this process is a worker.
+func IsWorker() bool { _, _, ok := WorkerIndex(); return ok }
+
+// FinishWorker dumps the run state for the parent and exits.
+func (r *Run) FinishWorker() {
+	d := dump{Evals: atomic.LoadInt64(&r.evals), Outcomes: r.outcomes,
+		Findings: r.findings, FindingSigs: r.findingSigs, KnownSeen: r.knownSeen,
+		Samples: r.Samples, Extra: r.Extra, Caps: r.capsHit, Incon: r.incon,
+		Assumptions: r.Assumptions, Exhaustive: r.Exhaustive}
+	for k := range r.distinct {
+		d.Distinct = append(d.Distinct, k)
+	}
+	b, _ := json.Marshal(d)
+	os.Stdout.Write([]byte("\nVERIF-WORKER-DUMP "))
+	os.Stdout.Write(b)
+	os.Stdout.Write([]byte("\n"))
+	os.Exit(0)
+}
+
+// RunWorkers re-executes this program n times as workers, merges their
+// results into r and returns.  Worker crashes are reported as inconclusive
+// (the parent cannot know what the worker would have found), except that a
+// worker may leave a crash note via the crashNote callback.
+func (r *Run) RunWorkers(n int, extraEnv ...string) {
+	if n <= 0 {
+		n = Workers()
+	}
+	type res struct {
+		out []byte
+		err error
+		k   int
+	}
+	ch := make(chan res, n)
+	for k := 0; k < n; k++ {
+		go func(k int) {
+			cmd := execCommand(os.Args[0], os.Args[1:]...)
+			cmd.Env = append(os.Environ(), fmt.Sprintf("VERIF_WORKER=%d/%d", k, n),
+				fmt.Sprintf("VERIF_DEADLINE_UNIX=%d", r.deadline.Unix()))
+			cmd.Env = append(cmd.Env, extraEnv...)
+			cmd.Stderr = os.Stderr
+			out, err := cmd.Output()
+			ch <- res{out, err, k}
+		}(k)
+	}
+	for i := 0; i < n; i++ {
+		x := <-ch
+		idx := bytes.LastIndex(x.out, []byte("\nVERIF-WORKER-DUMP "))
+		if idx < 0 {
+			tail := string(x.out)
+			if len(tail) > 400 {
+				tail = tail[len(tail)-400:]
+			}
+			r.Inconclusive(fmt.Sprintf("worker %d/%d ended without a result (%v): %s", x.k, n, x.err, tail))
+			continue
+		}
+		line := x.out[idx+len("\nVERIF-WORKER-DUMP "):]
+		if j := bytes.IndexByte(line, '\n'); j >= 0 {
+			line = line[:j]
+		}
+		var d dump
+		if err := json.Unmarshal(line, &d); err != nil {
+			r.Inconclusive(fmt.Sprintf("worker %d/%d produced an unreadable result: %v", x.k, n, err))
+			continue
+		}
+		r.merge(&d)
+	}
+}
+
+func (r *Run) merge(d *dump) {
+	atomic.AddInt64(&r.evals, d.Evals)
+	r.mu.Lock()
+	defer r.mu.Unlock()
+	for _, k := range d.Distinct {
+		r.distinct[k] = struct{}{}
+	}
+	for k, v := range d.Outcomes {
+		r.outcomes[k] += v
+	}
+	for k, v := range d.FindingSigs {
+		r.findingSigs[k] += v
+	}
+	for _, f := range d.Findings {
+		if len(r.findings) < 40 {
+			r.findings = append(r.findings, f)
+		}
+	}
+	for k, v := range d.KnownSeen {
+		r.knownSeen[k] = v
+	}
+	for _, s := range d.Samples {
+		if len(r.Samples) < 12 {
+			r.Samples = append(r.Samples, s)
+		}
+	}
+	for k, v := range d.Extra {
+		if f, ok := v.(float64); ok {
+			cur, _ := r.Extra[k].(float64)
+			r.Extra[k] = cur + f
+		} else if _, exists := r.Extra[k]; !exists {
+			r.Extra[k] = v
+		}
+	}
+	for _, c := range d.Caps {
+		dupe := false
+		for _, e := range r.capsHit {
+			dupe = dupe || e == c
+		}
+		if !dupe && len(r.capsHit) < 50 {
+			r.capsHit = append(r.capsHit, c)
+		}
+	}
+	r.incon = append(r.incon, d.Incon...)
+	for _, a := range d.Assumptions {
+		dupe := false
+		for _, e := range r.Assumptions {
+			dupe = dupe || e == a
+		}
+		if !dupe {
+			r.Assumptions = append(r.Assumptions, a)
+		}
+	}
+	if !d.Exhaustive {
+		r.Exhaustive = false
+	}
+}
+
+// Done finishes the run: worker dump in a worker, evidence otherwise.
+func (r *Run) Done() {
+	if IsWorker() {
+		r.FinishWorker()
+	}
+	r.Finish()
 }
